@@ -1619,6 +1619,21 @@ def convert_lrelu_to_mul_max(op, arch):
     if ifm is None or ofm is None:
         return op
 
+    # The shapes of the op can differ from those of its tensors (a bypassed reshape): the operations created
+    # below and their intermediate tensors take the shapes of the op
+    ifm_shape, ofm_shape = op.ifm_shapes[0], op.ofm_shapes[0]
+
+    def set_shapes(new_op, fm_inputs):
+        new_op.set_ifm_ofm_shapes()
+        for idx in range(fm_inputs):
+            new_op.ifm_shapes[idx] = ifm_shape
+        new_op.ofm_shapes[0] = ofm_shape
+
+    def clone_fm(tens, suffix):
+        new_tens = tens.clone(suffix, set_unique=True)
+        new_tens.set_all_shapes(ofm_shape.as_list())
+        return new_tens
+
     alpha = np.float32(op.attrs["alpha"])
     use_mul_max = 0 < alpha < 1
     is_converted_prelu = "alpha_scaling" in op.attrs
@@ -1636,13 +1651,13 @@ def convert_lrelu_to_mul_max(op, arch):
         min_op = Operation(Op.Minimum, op.name + "_min")
         min_op.add_input_tensor(ifm)
         min_op.add_input_tensor(zero)
-        mul_ifm = ifm.clone(op.name + "_negative", set_unique=True)
+        mul_ifm = clone_fm(ifm, op.name + "_negative")
         if alpha < 0 and not is_converted_prelu:
             # For negative alpha that is not from a converted PReLU we need to use
             # int32 Mul below to perform the (negative) alpha scaling
             mul_ifm.dtype = DataType.int32
         min_op.set_output_tensor(mul_ifm)
-        min_op.set_ifm_ofm_shapes()
+        set_shapes(min_op, 1)
         new_op = Op.Add
         op.explicit_scaling = ExplicitScaling(False, shift=[0], multiplier=[1])  # No scaling
         DebugDatabase.add_optimised(op, min_op)
@@ -1673,17 +1688,17 @@ def convert_lrelu_to_mul_max(op, arch):
             scalar = 1
     alpha_tens = create_const_tensor(op.name + "_alpha_scalar", [1], alpha_dtype, [scalar], quantization=quantization)
     mul_alpha.add_input_tensor(alpha_tens)
-    fm_alpha = ofm.clone(op.name + "_alpha", set_unique=True)
+    fm_alpha = clone_fm(ofm, op.name + "_alpha")
     mul_alpha.set_output_tensor(fm_alpha)
-    mul_alpha.set_ifm_ofm_shapes()
+    set_shapes(mul_alpha, 1)
     DebugDatabase.add_optimised(op, mul_alpha)
 
     if not use_mul_max:
         relu_op = Operation(Op.Relu, op.name + "_relu")
         relu_op.add_input_tensor(ifm)
-        fm_id = ofm.clone(op.name + "_positive_scaled", set_unique=True)
+        fm_id = clone_fm(ofm, op.name + "_positive_scaled")
         relu_op.set_output_tensor(fm_id)
-        relu_op.set_ifm_ofm_shapes()
+        set_shapes(relu_op, 1)
         DebugDatabase.add_optimised(op, relu_op)
     elif check_quantized_tens_scaling_equal(ifm, ofm):
         # No identity multiplication is needed
@@ -1701,9 +1716,9 @@ def convert_lrelu_to_mul_max(op, arch):
         identity_tens = create_const_tensor(op.name + "_id_scalar", [], ifm.dtype, [1], quantization=quantization)
         mul_identity.add_input_tensor(identity_tens)
         # Make sure that fm_id is allocated to a different address than fm_alpha
-        fm_id = ofm.clone(op.name + "_id", set_unique=True)
+        fm_id = clone_fm(ofm, op.name + "_id")
         mul_identity.set_output_tensor(fm_id)
-        mul_identity.set_ifm_ofm_shapes()
+        set_shapes(mul_identity, 1)
         DebugDatabase.add_optimised(op, mul_identity)
 
     # Convert LeakyRelu to Max, add the results of the multiplication(s) as inputs
@@ -1713,7 +1728,7 @@ def convert_lrelu_to_mul_max(op, arch):
     ifm.consumer_list.remove(op)
     op.add_input_tensor(fm_alpha)
     op.add_input_tensor(fm_id)
-    op.set_ifm_ofm_shapes()
+    set_shapes(op, 2)
 
     DebugDatabase.add_optimised(op, op)
     return op
